@@ -174,6 +174,21 @@ func c13Scenario(name string, prefix []string) *Scenario {
 				}})
 		}
 	}
+	// an exact resubmission of a record the chain already holds (same identifier, height and hashes), by its
+	// owner and by everybody else: "it is already there" is no reason to tell a non-owner that it succeeded
+	for _, x := range accts {
+		x := x
+		s.Actions = append(s.Actions, Action{Name: fmt.Sprintf("wrk.rec[resubmission of the last record, names %s, signed by %s]", x, x), Dt: ms,
+			Txs: func(m *model.State) []model.Tx {
+				e := m.Wrk.Ents[1]
+				r := e.Ever[e.Last]
+				return []model.Tx{{Msgs: []model.Msg{{Kind: model.WrkRec, From: x, ID: 1, H: r.H, S: append([]string{}, r.S...)}}, Fee: fee(m.Wrk.P.FeeRec)}}
+			},
+			Enabled: func(m *model.State, aux map[string]int) bool {
+				e, ok := m.Wrk.Ents[1]
+				return aux["base"] >= 1 && ok && e.Last > 0
+			}})
+	}
 	// the route a transaction takes through the pre-execution stage depends on more than its messages
 	// (a fee granter, a fee-carrying WRKChain/BEACON message riding along): whatever the route, a message
 	// naming x and signed with y's key takes no effect. Per message type: the forged transaction with a
